@@ -6,7 +6,7 @@ get_unit_multipliers_from_billion_kcals_thou_tons_thou_tons, get_conversion, in_
 wrappers; Food.__init__ (src/food_system/food.py) as the constructor of the results.
 """
 import z3
-from pyvc.vc import Contract
+from pyvc.vc import Contract, Ref
 from pyvc.spec import V, And, Or, Not, Implies, If, Abs, Min, Max, Sum, unwrap
 
 UC = "src/food_system/unit_conversions.py"
@@ -215,6 +215,37 @@ class InUnits(Contract):
         }
 
 
+class ReducedThenConverted(Contract):
+    """Two steps: a monthly series is reduced to a total (Food.get_nutrients_sum), THEN converted.  The total converts as a
+    total - in_units reads the label LIST, so a reduction that renamed the three labels but left the list behind would
+    send the total through the each-month branch."""
+    prop = "C10"
+    file = UC
+    func = "UnitConversions.in_units"
+    name = "a_total_obtained_from_a_monthly_series_converts_as_a_total"
+    np_floats = True
+
+    def inputs(self, S):
+        s = settings(S)
+        N = 3
+        k, f, p = S.series("k", N), S.series("f", N), S.series("p", N)
+        ku, fu, pu = KBASE[0] + " each month", FBASE[0] + " each month", FBASE[0] + " each month"
+        food = S.food(k, f, p, ku, fu, pu)
+        s["calls"] = [dict(file="src/food_system/food.py", func="Food.get_nutrients_sum", args=[food]),
+                      dict(func=self.func, args=[Ref(0), KBASE[1], FBASE[1], FBASE[1]])]
+        s.update(k=k, f=f, p=p)
+        return s
+
+    def ensures(self, S, a, res):
+        r = V(unwrap(res)[1])
+        tk, tf = KBASE[1], FBASE[1]
+        total = lambda x: Sum([x[i] for i in range(3)])
+        ck = spec_multiplier("kcals", tk, a) / spec_multiplier("kcals", KBASE[0], a)
+        return {"form_of_the_total_is_total": V(unwrap(r.kcals_units) == tk and unwrap(r.fat_units) == tf and unwrap(r.protein_units) == tf
+                                                  and unwrap(r.units) == [tk, tf, tf]),
+                "value_is_the_converted_sum": r.kcals == ck * total(a["k"])}
+
+
 class Anchors(Contract):
     prop = "C10"
     file = UC
@@ -311,7 +342,7 @@ def lemmas(repo, tier, seed):
 CONTRACTS = ([Multipliers(n) for n in ("kcals", "fat", "protein")] + [Conversion(i) for i in range(18)]
              + [UnknownUnit(0, "kcals"), UnknownUnit(1, "tons"), UnknownUnit(2, "thousand tons each year")]
              + [InUnits(form, i) for form in FORMS for i in range(6)]
-             + [InUnits(" each month", i, single_value=True) for i in (0, 3)] + [Anchors(), Resettings()])
+             + [InUnits(" each month", i, single_value=True) for i in (0, 3)] + [ReducedThenConverted(), Anchors(), Resettings()])
 EXTRA = [lemmas]
 TRUSTED = [
     "machine floats treated as mathematical reals: each identity holds exactly in R, to a few ulp in doubles",
